@@ -184,6 +184,15 @@ class Gen:
             if not cands: return
             p = r.choice(sorted(cands))
             dd = self.anydir()
+            if p in self.dirs and r.chance(1, 12):
+                # the special entries of a sub-directory as rename source / remove target: must be refused
+                h, base = self.pick_base(p[:-1])
+                sp = self.rel(base, p) + r.choice(["/.", "/.."])
+                if r.chance(1, 2):
+                    self.emit("rename %d %s 0 %s" % (h, hexs(sp), hexs(self.name(100) + "_moved")))
+                else:
+                    self.emit("remove %d %s" % (h, hexs(sp)))
+                return
             if p in self.dirs and dd[:len(p)] == p:
                 if not r.chance(1, 6):   # moving a directory into itself: rarely, on purpose
                     return
